@@ -285,6 +285,101 @@ theorem doAssemble_sim (hinj : NumInj num) (henc : EncLen enc) (fs : Bytes → O
     · cases h
     · cases h
 
+/-! ## a whole file -/
+
+theorem fileBody_sim (hinj : NumInj num) (henc : EncLen enc) (fs : Bytes → Option Bytes) (inc : Inc)
+    (proj : Bytes → Bytes → Prop) (hincs : IncSim num enc fs inc proj) (hinc : IncOk inc) (hincg : IncGrew inc)
+    (hincr : IncRel inc) (env1 : Env) (path : Bytes) (rest : List Bytes) (henv : env1.paths = path :: rest)
+    (data : Bytes) (id : Nat) (st2 st4 : St) (res : Res) (l2 : Layout.State)
+    (hproj : ∀ els perr, parseFile data = .ok (els, perr) → ∀ el ∈ els, okInc el = true ∧ plainEl el = true ∧
+      ∀ p' d', incTarget fs path el = some (p', d') → proj p' d')
+    (good : Good true st2) (r : R st2.seg l2) (hloc : st2.locals = some []) (hlt : st2.localTasks = some [])
+    (hlk : l2.tasks = []) (hfresh : ∀ j n, id ≤ j → l2.env.get (num j n) = none)
+    (h : fileBody fs enc inc env1 data st2 = .ok (st4, res)) (herr : st4.errors = []) :
+    ∃ els perr t p l3 l4 id', parseFile data = .ok (els, perr) ∧ id < id' ∧ res = .ok ∧
+      MRun l2 p l3 ∧ Layout.runTasks (withTasks [] l3) l3.tasks = .ok l4 ∧
+      Good true st4 ∧ R st4.seg l4 ∧ st4.globals = st2.globals ∧ st4.globalTasks = st2.globalTasks ∧
+      st4.localTasks = some [] ∧ st4.locals = some t ∧
+      cursor st4 = Layout.Ref.cursorAfter (cursor st2) p ∧ (∀ s ∈ p, s.wf = true) ∧
+      (∀ j n, (j < id ∨ id' ≤ j) → l4.env.get (num j n) = l2.env.get (num j n)) ∧
+      (∀ E : Layout.Env, (∀ j n, id ≤ j → j < id' → E.get (num j n) = l4.env.get (num j n)) →
+        EnvRel (num id) t E ∧ FlatEls num fs enc E id path t (id + 1) (cursor st2) els p id') := by
+  have henv' : env1.paths.isEmpty = false := by rw [henv]; rfl
+  obtain ⟨els, perr, hparse⟩ := parseFile_cases data
+  have hfb' := h
+  unfold fileBody at hfb'
+  rw [hparse] at hfb'
+  simp only at hfb'
+  cases hda : doAssemble fs enc inc env1 els perr st2 with
+  | stop x => rw [hda] at hfb'; cases hfb'
+  | ok w =>
+    obtain ⟨st3, res3⟩ := w
+    rw [hda] at hfb'
+    simp only at hfb'
+    have gda := doAssemble_grew hincg perr els _ st3 res3 hda
+    by_cases hfat : res3 = .err .fatal
+    · exfalso
+      rw [if_pos hfat] at hfb'
+      cases hfb'
+      subst hfat
+      exact absurd (grew_nil gda herr).2 (by simp)
+    · rw [if_neg hfat] at hfb'
+      cases htk : st3.localTasks with
+      | none => rw [htk] at hfb'; cases hfb'
+      | some tasks =>
+        rw [htk] at hfb'
+        simp only at hfb'
+        have gll := (localLoop_grew _ _ _ _ _ _ hfb').1
+        have herr3 : st3.errors = [] := by
+          rw [herr] at gll
+          exact List.eq_nil_of_length_eq_zero (by simpa using gll)
+        have hres3 : res3 = .ok := by
+          have := (grew_nil gda herr3).2
+          cases res3 with
+          | ok => rfl
+          | err lv => simp at this
+        subst hres3
+        -- the final table
+        obtain ⟨C, t₂, hC, ht₂, _, _⟩ := (doAssemble_rel hincr perr els st2 [] hloc _ _ hda).tabs
+        have sim2 : Sim (num id) enc t₂ st2.globalTasks st2.globals st2 l2 :=
+          ⟨good, r, ⟨[], hloc, fun n hh => by simp [Table.find] at hh, fun n v hh => by simp [Table.find] at hh,
+              fun n => by rw [hfresh id n (Nat.le_refl _)]; rfl⟩,
+            ⟨[], hlt, by rw [hlk]; trivial⟩, ⟨rfl, rfl⟩⟩
+        obtain ⟨p, lf, id', hle, hm, f2, hcur, hwf, hframe, hflat⟩ :=
+          doAssemble_sim (t₂ := t₂) hinj henc fs inc proj hincs hinc hincg hincr env1 path rest henv perr id els st2 st3 l2
+            (id + 1) (hproj els perr hparse) sim2 (Nat.lt_succ_self _) (fun j n hj => hfresh j n (by omega)) hda herr3 ht₂
+        obtain ⟨t, e1, e2, _, e4⟩ := f2.tbl
+        rw [ht₂] at e1; cases e1
+        obtain ⟨qq, q1, q2⟩ := f2.tasks
+        rw [htk] at q1; cases q1
+        have gc := (good_clearLocal f2.good).1
+        have tsim : TSim (num id) t₂ st2.globalTasks st2.globals { st3 with localTasks := some [] } (withTasks [] lf) :=
+          ⟨gc, f2.r, ht₂, e2, e4, rfl, f2.gl⟩
+        have hrounds : rounds = 6 + 2 := rfl
+        rw [hrounds] at hfb'
+        obtain ⟨l4, g1, g2, g3⟩ := localLoop_sim henc env1 henv' 6 tasks lf.tasks _ st4 _ res tsim q2
+          (fun t m => f2.good.lt tasks htk t m) hfb' herr
+        have hres : res = .ok := by
+          have := (localLoop_grew _ _ _ _ _ _ hfb').2
+          cases res with
+          | ok => rfl
+          | err lv =>
+            exfalso
+            rcases this rfl with h1 | h1
+            · simp [Res.isErr] at h1
+            · rw [herr, herr3] at h1; simp at h1
+        have he4 : l4.env = lf.env := Layout.runTasks_env _ (withTasks [] lf) l4 g1
+        refine ⟨els, perr, t₂, p, lf, l4, id', hparse, by omega, hres, hm, g1, g2.good, g2.r, g2.gl.2, g2.gl.1, g2.lq,
+          g2.loc, ?_, hwf, ?_, ?_⟩
+        · rw [← hcur]; exact g3
+        · intro j n hj
+          rw [he4]
+          exact hframe j n (by omega) (by omega)
+        · intro E hE
+          refine ⟨fun n => ?_, hflat E (fun j n h1 h2 => by rw [hE j n (by omega) h2, he4])⟩
+          rw [hE id n (Nat.le_refl _) (by omega)]
+          exact g2.env n
+
 end
 
 end Trion.Asm.Multi
